@@ -40,6 +40,34 @@ structure Base (zu : Bool) (limit pre : Nat) (c : Cfg) : Prop where
   cap : capOk zu limit c.occ.length = true
   fresh : ∀ x ∈ c.occ, x < c.next
 
+theorem handover_trace (c : Cfg) (i : Nat) : (handover c i).trace = c.trace := by unfold handover; split <;> rfl
+theorem handover_occ (c : Cfg) (i : Nat) : (handover c i).occ = c.occ := by unfold handover; split <;> rfl
+theorem handover_next (c : Cfg) (i : Nat) : (handover c i).next = c.next := by unfold handover; split <;> rfl
+theorem unlockCfg_trace (P : Proto) (c : Cfg) (i : Nat) : (unlockCfg P c i).trace = c.trace := by
+  unfold unlockCfg; split
+  · exact handover_trace c i
+  · rfl
+theorem unlockCfg_occ (P : Proto) (c : Cfg) (i : Nat) : (unlockCfg P c i).occ = c.occ := by
+  unfold unlockCfg; split
+  · exact handover_occ c i
+  · rfl
+theorem unlockCfg_next (P : Proto) (c : Cfg) (i : Nat) : (unlockCfg P c i).next = c.next := by
+  unfold unlockCfg; split
+  · exact handover_next c i
+  · rfl
+
+/-- `Base` speaks about the trace, the occupancy and the item counter only. -/
+theorem base_congr {zu : Bool} {limit pre : Nat} {c c' : Cfg} (hb : Base zu limit pre c)
+    (h1 : c'.trace = c.trace) (h2 : c'.occ = c.occ) (h3 : c'.next = c.next) : Base zu limit pre c' := by
+  refine ⟨?_, ?_, ?_⟩
+  · rw [h1, h2]; exact hb.rep
+  · rw [h2]; exact hb.cap
+  · rw [h2, h3]; exact hb.fresh
+
+theorem base_unlock {zu : Bool} {limit pre : Nat} (P : Proto) {c : Cfg} (hb : Base zu limit pre c) (i : Nat) :
+    Base zu limit pre (unlockCfg P c i) :=
+  base_congr hb (unlockCfg_trace P c i) (unlockCfg_occ P c i) (unlockCfg_next P c i)
+
 theorem base_init (zu : Bool) (limit pre : Nat) (progs : List (Nat × List Op))
     (h : capOk zu limit pre = true) : Base zu limit pre (init pre progs) := by
   refine ⟨rfl, ?_, ?_⟩
@@ -54,12 +82,15 @@ theorem base_stp {zu : Bool} {limit pre : Nat} {c : Cfg} (hb : Base zu limit pre
   rw [replay_snoc, hb.rep]
   simp [specStep, hb.cap]
 
-theorem base_blk {zu : Bool} {limit pre : Nat} {c : Cfg} (hb : Base zu limit pre c) (tid : Nat) :
-    Base zu limit pre { c with trace := c.trace ++ [.blk tid c.occ.length] } := by
-  refine ⟨?_, hb.cap, hb.fresh⟩
-  simp only
-  rw [replay_snoc, hb.rep]
-  simp [specStep, hb.cap]
+/-- A blocked step: whatever happens to the thread table and the wait queue. -/
+theorem base_blk {zu : Bool} {limit pre : Nat} {c c' : Cfg} (hb : Base zu limit pre c) (tid : Nat)
+    (h1 : c'.trace = c.trace ++ [.blk tid c.occ.length]) (h2 : c'.occ = c.occ) (h3 : c'.next = c.next) :
+    Base zu limit pre c' := by
+  refine ⟨?_, ?_, ?_⟩
+  · rw [h1, h2, replay_snoc, hb.rep]
+    simp [specStep, hb.cap]
+  · rw [h2]; exact hb.cap
+  · rw [h2, h3]; exact hb.fresh
 
 theorem base_nop {zu : Bool} {limit pre : Nat} {c : Cfg} (hb : Base zu limit pre c) (tid : Nat) :
     Base zu limit pre (nopCfg c tid) := by
@@ -68,12 +99,20 @@ theorem base_nop {zu : Bool} {limit pre : Nat} {c : Cfg} (hb : Base zu limit pre
   rw [replay_snoc, hb.rep]
   simp [specStep, hb.cap]
 
-theorem base_refuse {limit pre : Nat} (P : Proto) {c : Cfg} (hb : Base P.zeroUnl limit pre c) (tid : Nat) :
-    Base P.zeroUnl limit pre (refuseCfg P c tid) := by
+theorem base_refuseCore {zu : Bool} {limit pre : Nat} {c : Cfg} (hb : Base zu limit pre c) (tid : Nat) :
+    Base zu limit pre (refuseCore c tid) := by
   refine ⟨?_, hb.cap, hb.fresh⟩
-  simp only [refuseCfg]
+  simp only [refuseCore]
   rw [replay_snoc, hb.rep]
   simp [specStep, hb.cap]
+
+theorem base_refuse {limit pre : Nat} (P : Proto) {c : Cfg} (hb : Base P.zeroUnl limit pre c) (tid : Nat) :
+    Base P.zeroUnl limit pre (refuseCfg P c tid) := base_unlock P (base_refuseCore hb tid) _
+
+theorem base_done {limit pre : Nat} (P : Proto) {c : Cfg} (hb : Base P.zeroUnl limit pre c) (tid : Nat) :
+    Base P.zeroUnl limit pre (doneCfg P c tid) := by
+  unfold doneCfg
+  exact base_unlock P (base_stp hb tid _ _) _
 
 theorem erase_length_le (l : List Nat) (x : Nat) : (l.erase x).length ≤ l.length := by
   rw [List.length_erase]
@@ -97,39 +136,48 @@ theorem next_not_mem {zu : Bool} {limit pre : Nat} {c : Cfg} (hb : Base zu limit
   intro h
   exact Nat.lt_irrefl _ (hb.fresh _ h)
 
-theorem base_admit {limit pre : Nat} (P : Proto) {c : Cfg} (hb : Base P.zeroUnl limit pre c) (tid : Nat)
-    (hcap : capOk P.zeroUnl limit (c.occ.length + 1) = true) :
-    Base P.zeroUnl limit pre (admitCfg P c tid c.occ none) := by
+theorem base_admitCore {zu : Bool} {limit pre : Nat} {c : Cfg} (hb : Base zu limit pre c) (tid : Nat)
+    (hcap : capOk zu limit (c.occ.length + 1) = true) :
+    Base zu limit pre (admitCore c tid c.occ none) := by
   have hn := next_not_mem hb
   refine ⟨?_, ?_, ?_⟩
-  · simp only [admitCfg]
+  · simp only [admitCore]
     rw [replay_snoc, hb.rep]
     simp [specStep, hcap, hn]
-  · simpa [admitCfg] using hcap
+  · simpa [admitCore] using hcap
   · intro x hx
-    simp only [admitCfg, List.mem_append, List.mem_singleton] at hx
+    simp only [admitCore, List.mem_append, List.mem_singleton] at hx
     rcases hx with hx | hx
     · exact Nat.lt_succ_of_lt (hb.fresh x hx)
-    · simp only [admitCfg]; omega
+    · simp only [admitCore]; omega
 
-theorem base_admit_evict {limit pre : Nat} (P : Proto) {c : Cfg} (hb : Base P.zeroUnl limit pre c) (tid v : Nat)
+theorem base_admit {limit pre : Nat} (P : Proto) {c : Cfg} (hb : Base P.zeroUnl limit pre c) (tid : Nat)
+    (hcap : capOk P.zeroUnl limit (c.occ.length + 1) = true) :
+    Base P.zeroUnl limit pre (admitCfg P c tid c.occ none) := base_unlock P (base_admitCore hb tid hcap) _
+
+theorem base_admitCore_evict {zu : Bool} {limit pre : Nat} {c : Cfg} (hb : Base zu limit pre c) (tid v : Nat)
     (r : List Nat) (hocc : c.occ = v :: r) :
-    Base P.zeroUnl limit pre (admitCfg P c tid r (some v)) := by
+    Base zu limit pre (admitCore c tid r (some v)) := by
   have hn := next_not_mem hb
-  have hcap : capOk P.zeroUnl limit (r.length + 1) = true := by
+  have hcap : capOk zu limit (r.length + 1) = true := by
     have := hb.cap; rw [hocc] at this; simpa using this
   have her : c.occ.erase v = r := by rw [hocc]; simp
   have hv : v ∈ c.occ := by rw [hocc]; simp
   refine ⟨?_, ?_, ?_⟩
-  · simp only [admitCfg]
+  · simp only [admitCore]
     rw [replay_snoc, hb.rep]
     simp [specStep, hcap, hn, her, hv]
-  · simpa [admitCfg] using hcap
+  · simpa [admitCore] using hcap
   · intro x hx
-    simp only [admitCfg, List.mem_append, List.mem_singleton] at hx
+    simp only [admitCore, List.mem_append, List.mem_singleton] at hx
     rcases hx with hx | hx
     · exact Nat.lt_succ_of_lt (hb.fresh x (by rw [hocc]; exact List.mem_cons_of_mem _ hx))
-    · simp only [admitCfg]; omega
+    · simp only [admitCore]; omega
+
+theorem base_admit_evict {limit pre : Nat} (P : Proto) {c : Cfg} (hb : Base P.zeroUnl limit pre c) (tid v : Nat)
+    (r : List Nat) (hocc : c.occ = v :: r) :
+    Base P.zeroUnl limit pre (admitCfg P c tid r (some v)) :=
+  base_unlock P (base_admitCore_evict hb tid v r hocc) _
 
 theorem holds_of_base {zu : Bool} {limit pre : Nat} {c : Cfg} (hb : Base zu limit pre c) :
     holds zu limit pre c.trace c.occ = true := by
@@ -140,39 +188,86 @@ theorem holds_of_base {zu : Bool} {limit pre : Nat} {c : Cfg} (hb : Base zu limi
 /-! ### invariant A: protocols whose final step decides atomically -/
 
 /-- A thread past the check passed it on the value it carries. -/
-def PassedOk (P : Proto) (limit : Nat) (c : Cfg) : Prop :=
-  ∀ i snap k, (c.threads i).pc = .passed snap k → full P limit snap = false
+def PassedOkT (P : Proto) (limit : Nat) (ts : Nat → Thread) : Prop :=
+  ∀ i snap k, (ts i).pc = .passed snap k → full P limit snap = false
+
+def PassedOk (P : Proto) (limit : Nat) (c : Cfg) : Prop := PassedOkT P limit c.threads
 
 structure InvA (P : Proto) (limit pre : Nat) (c : Cfg) : Prop where
   base : Base P.zeroUnl limit pre c
   passed : PassedOk P limit c
 
-theorem passedOk_upd {P : Proto} {limit : Nat} {c : Cfg} (hp : PassedOk P limit c) (tid : Nat) (t : Thread)
-    (ht : ∀ snap k, t.pc = .passed snap k → full P limit snap = false) :
-    ∀ i snap k, (upd c.threads tid t i).pc = .passed snap k → full P limit snap = false := by
+theorem passedOkT_upd {P : Proto} {limit : Nat} {ts : Nat → Thread} (hp : PassedOkT P limit ts) (tid : Nat) (t : Thread)
+    (ht : ∀ snap k, t.pc = .passed snap k → full P limit snap = false) : PassedOkT P limit (upd ts tid t) := by
   intro i snap k h
   by_cases hi : i = tid
   · subst hi; rw [upd_self] at h; exact ht snap k h
   · rw [upd_ne _ _ _ _ hi] at h; exact hp i snap k h
 
+theorem passedOk_handover {P : Proto} {limit : Nat} {c : Cfg} (hp : PassedOk P limit c) (i : Nat) :
+    PassedOk P limit (handover c i) := by
+  unfold handover
+  split
+  · exact passedOkT_upd hp _ _ (by intro s k hh; cases hh)
+  · exact hp
+
+theorem passedOk_unlock {P : Proto} {limit : Nat} {c : Cfg} (hp : PassedOk P limit c) (i : Nat) :
+    PassedOk P limit (unlockCfg P c i) := by
+  unfold unlockCfg
+  split
+  · exact passedOk_handover hp i
+  · exact hp
+
 theorem invA_stp {P : Proto} {limit pre : Nat} {c : Cfg} (h : InvA P limit pre c) (tid : Nat) (t : Thread)
     (locks : List Nat) (ht : ∀ snap k, t.pc = .passed snap k → full P limit snap = false) :
     InvA P limit pre (stpCfg c tid t locks) :=
-  ⟨base_stp h.base tid t locks, passedOk_upd h.passed tid t ht⟩
+  ⟨base_stp h.base tid t locks, passedOkT_upd h.passed tid t ht⟩
 
 theorem invA_refuse {P : Proto} {limit pre : Nat} {c : Cfg} (h : InvA P limit pre c) (tid : Nat) :
     InvA P limit pre (refuseCfg P c tid) :=
-  ⟨base_refuse P h.base tid, passedOk_upd h.passed tid _ (by intro s k hh; simp at hh)⟩
+  by
+  refine ⟨base_refuse P h.base tid, ?_⟩
+  unfold refuseCfg refuseCore
+  apply passedOk_unlock
+  exact passedOkT_upd h.passed tid _ (by intro s k hh; cases hh)
+
+theorem invA_done {P : Proto} {limit pre : Nat} {c : Cfg} (h : InvA P limit pre c) (tid : Nat) :
+    InvA P limit pre (doneCfg P c tid) :=
+  by
+  refine ⟨base_done P h.base tid, ?_⟩
+  unfold doneCfg
+  apply passedOk_unlock
+  unfold stpCfg
+  exact passedOkT_upd h.passed tid _ (by intro s k hh; cases hh)
 
 theorem invA_admit {P : Proto} {limit pre : Nat} {c : Cfg} (h : InvA P limit pre c) (tid : Nat)
     (hcap : capOk P.zeroUnl limit (c.occ.length + 1) = true) :
     InvA P limit pre (admitCfg P c tid c.occ none) :=
-  ⟨base_admit P h.base tid hcap, passedOk_upd h.passed tid _ (by intro s k hh; simp [finishOp] at hh)⟩
+  by
+  refine ⟨base_admit P h.base tid hcap, ?_⟩
+  unfold admitCfg admitCore
+  apply passedOk_unlock
+  exact passedOkT_upd h.passed tid _ (by intro s k hh; cases hh)
 
 theorem invA_admit_evict {P : Proto} {limit pre : Nat} {c : Cfg} (h : InvA P limit pre c) (tid v : Nat)
     (r : List Nat) (hocc : c.occ = v :: r) :
     InvA P limit pre (admitCfg P c tid r (some v)) :=
-  ⟨base_admit_evict P h.base tid v r hocc, passedOk_upd h.passed tid _ (by intro s k hh; simp [finishOp] at hh)⟩
+  by
+  refine ⟨base_admit_evict P h.base tid v r hocc, ?_⟩
+  unfold admitCfg admitCore
+  apply passedOk_unlock
+  exact passedOkT_upd h.passed tid _ (by intro s k hh; cases hh)
+
+theorem invA_blk {P : Proto} {limit pre : Nat} {c : Cfg} (h : InvA P limit pre c) (tid : Nat) :
+    InvA P limit pre (blkCfg c tid) :=
+  ⟨base_blk h.base tid rfl rfl rfl, h.passed⟩
+
+theorem invA_lock {P : Proto} {limit pre : Nat} {c : Cfg} (h : InvA P limit pre c) (tid : Nat) :
+    InvA P limit pre (lockStep c tid) := by
+  unfold lockStep
+  split
+  · exact ⟨base_blk (c' := waitCfg c tid) h.base tid rfl rfl rfl, passedOkT_upd h.passed tid _ (by intro s k hh; cases hh)⟩
+  · exact invA_stp h tid _ _ (by intro s k hh; cases hh)
 
 theorem invA_final {P : Proto} {limit pre : Nat} {c : Cfg} (h : InvA P limit pre c) (tid snap : Nat)
     (hfin : P.final ≠ .plain) (hs : P.final = .cas → full P limit snap = false) :
@@ -235,35 +330,37 @@ theorem invA_read {P : Proto} {limit pre : Nat} {c : Cfg} (h : InvA P limit pre 
     rw [hcas hf] at he
     exact absurd he (by simp)
 
+theorem invA_noise {P : Proto} {limit pre : Nat} {c : Cfg} (h : InvA P limit pre c) (tid : Nat) :
+    InvA P limit pre (noiseStep P limit c tid) := by
+  unfold noiseStep
+  split
+  · split
+    · exact invA_done h tid
+    · exact invA_stp h tid _ _ (by intro s k hh; cases hh)
+  · exact invA_done h tid
+
 theorem invA_step {P : Proto} {limit pre : Nat} {c : Cfg} (h : InvA P limit pre c) (tid : Nat)
-    (hfin : P.final ≠ .plain) (hcas : P.final = .cas → P.early = true) :
+    (hfin : P.final ≠ .plain) (hcas : P.final = .cas → P.early = true) (hfu : P.fused = false) :
     InvA P limit pre (stepThread P limit c tid) := by
   unfold stepThread
   split
   · exact h
   · split
-    · exact ⟨base_nop h.base tid, passedOk_upd h.passed tid _ (by intro s k hh; simp [finishOp] at hh)⟩
+    · exact ⟨base_nop h.base tid, passedOkT_upd h.passed tid _ (by intro s k hh; cases hh)⟩
     · rename_i it _
       by_cases hin : it ∈ c.occ
       · simp only [hin, if_true]
-        exact ⟨base_rel h.base tid it _ hin, passedOk_upd h.passed tid _ (by intro s k hh; simp [finishOp] at hh)⟩
+        exact ⟨base_rel h.base tid it _ hin, passedOkT_upd h.passed tid _ (by intro s k hh; cases hh)⟩
       · simp only [hin, if_false]
-        exact ⟨base_nop h.base tid, passedOk_upd h.passed tid _ (by intro s k hh; simp [finishOp] at hh)⟩
+        exact ⟨base_nop h.base tid, passedOkT_upd h.passed tid _ (by intro s k hh; cases hh)⟩
   · split
-    · -- idle
-      cases hm : P.mutex with
-      | true =>
-        simp only [if_true]
-        by_cases hl : (c.threads tid).inst ∈ c.locks
-        · simp only [hl, if_true]
-          exact ⟨base_blk h.base tid, h.passed⟩
-        · simp only [hl, if_false]
-          apply invA_stp h
-          intro s k hh; simp at hh
-      | false =>
-        simp only [Bool.false_eq_true, if_false]
-        exact invA_read h tid hfin hcas
-    · exact invA_read h tid hfin hcas
+    · simp only [hfu, Bool.false_eq_true, if_false]
+      split
+      · exact invA_lock h tid
+      · exact invA_read h tid hfin hcas
+    · exact invA_blk h tid
+    · simp only [hfu, Bool.false_eq_true, if_false]
+      exact invA_read h tid hfin hcas
     · rename_i snap k hpc
       by_cases hk : k ≤ 1
       · simp only [hk, if_true]; exact invA_check h tid snap
@@ -281,14 +378,29 @@ theorem invA_step {P : Proto} {limit pre : Nat} {c : Cfg} (h : InvA P limit pre 
         simp only [PC.passed.injEq] at hh
         rw [← hh.1]
         exact h.passed tid snap (k' + 1) hpc
+    · exact h
+    · simp only [hfu, Bool.false_eq_true, if_false]
+      exact h
+  · split
+    · split
+      · exact invA_lock h tid
+      · exact invA_noise h tid
+    · exact invA_blk h tid
+    · exact invA_noise h tid
+    · split
+      · exact invA_done h tid
+      · exact invA_stp h tid _ _ (by intro s k hh; cases hh)
+    · exact h
+    · exact h
+    · exact h
 
 theorem invA_run {P : Proto} {limit pre : Nat} (hfin : P.final ≠ .plain) (hcas : P.final = .cas → P.early = true)
-    (σ : List Nat) (c : Cfg) (h : InvA P limit pre c) : InvA P limit pre (run P limit c σ) := by
+    (hfu : P.fused = false) (σ : List Nat) (c : Cfg) (h : InvA P limit pre c) : InvA P limit pre (run P limit c σ) := by
   induction σ generalizing c with
   | nil => exact h
   | cons t r ih =>
     simp only [run, List.foldl_cons]
-    exact ih _ (invA_step h t hfin hcas)
+    exact ih _ (invA_step h t hfin hcas hfu)
 
 theorem invA_init (P : Proto) (limit pre : Nat) (progs : List (Nat × List Op))
     (h : capOk P.zeroUnl limit pre = true) : InvA P limit pre (init pre progs) := by
